@@ -46,7 +46,7 @@ from jellyfysh.potential.cell_bounding_potential import CellBoundingPotential
 assert_scratch()
 
 LABEL = "single_active_cell_occupancy"
-TAGS = ["cell_veto", "cell_bounding", "nearby", "surplus", "cell_boundary"]
+ALL_TAGS = ["cell_veto", "cell_bounding", "nearby", "surplus", "cell_boundary"]
 
 
 class StubEstimator(Estimator):
@@ -137,6 +137,8 @@ def run_occ(cfg):
         est = StubEstimator(potential)
         nh = cfg["n_handlers"]
         first_leaf = tuple(cfg["steps"][0]["leaf"])
+        no_veto = all(c in cells.nearby_cells(cells.zero_cell) for c in cells.yield_cells())
+        TAGS = [t for t in ALL_TAGS if not (no_veto and t == "cell_veto")]
         taggers = [
             NoInStateTagger(create=TAGS, trash=["start_of_run"],
                             event_handler=InitialChainStartOfRunEventHandler(0, 1.0, first_leaf), tag="start_of_run"),
@@ -153,7 +155,7 @@ def run_occ(cfg):
             CellBoundaryTagger(create=TAGS, trash=TAGS, event_handler=CellBoundaryEventHandler(),
                                internal_state_label=LABEL, tag="cell_boundary"),
         ]
-        if all(c in cells.nearby_cells(cells.zero_cell) for c in cells.yield_cells()):
+        if no_veto:
             # every cell is nearby: the real CellVetoEventHandler cannot be initialised (empty walker); the
             # configuration is then run without the cell-veto tagger
             del taggers[1]
@@ -212,7 +214,7 @@ def run_occ(cfg):
             so["update_args"] = [[list(n.value.identifier), bool(occ._is_relevant_unit(n.value)),
                                   cid(cells.position_to_cell(n.value.position))] for n in nodes]
             d = activator.get_event_handlers_to_run(active_state, prev)
-            by_tag = {t: [] for t in TAGS}
+            by_tag = {t: [] for t in ALL_TAGS}
             for h, ids in d.items():
                 by_tag[tagger_of[h].tag].append([list(i) for i in ids])
                 prev = h
@@ -229,7 +231,15 @@ def run_occ(cfg):
                 for rel in sorted(dom, key=lambda c: c.identifier):
                     target_cell = veto_handler._cells.translate(active_cell, rel)
                     args = Mediator.get_arguments_cell_veto_event_handler(shim, target_cell)
-                    ids = [list(a.value.identifier) for a in args if a is not None]
+                    ids = []
+                    for a in args:
+                        if a is None:
+                            continue
+                        # the mediator hands over the branch root -> target unit; descend to the cell level
+                        while len(a.value.identifier) < cfg["cell_level"]:
+                            assert len(a.children) == 1
+                            a = a.children[0]
+                        ids.append(list(a.value.identifier))
                     targets.append([cid(rel), cid(target_cell), ids])
             so["veto_targets"] = targets
         except Exception as e:  # noqa
